@@ -103,6 +103,7 @@ class State:
         self.consts = {}          # spec constants (name -> V), immutable
         self.next_oid = 0
         self.trace = []           # branch decisions (for reporting)
+        self._nn = set()
 
     def fork(self):
         s = State()
@@ -114,6 +115,7 @@ class State:
         s.consts = self.consts
         s.next_oid = self.next_oid
         s.trace = list(self.trace)
+        s._nn = set(self._nn)
         return s
 
     def assume(self, *conds):
@@ -153,11 +155,40 @@ def merge_states(states):
     deltas = [z3.And(p[k:]) if len(p) > k + 1 else (p[k] if len(p) > k else z3.BoolVal(True)) for p in pcs]
     base = states[0]
     if any(s.heap.keys() != base.heap.keys() or s.next_oid != base.next_oid for s in states[1:]):
-        return None
+        # tolerate heap cells allocated on some paths only if they hold immutable list payloads that will be
+        # merged by value below; otherwise give up
+        allk = set().union(*[set(s.heap.keys()) for s in states])
+        common = set(base.heap.keys()).intersection(*[set(s.heap.keys()) for s in states[1:]])
+        extra = allk - common
+        if any(isinstance(s.heap[k2], HObj) for s in states for k2 in extra if k2 in s.heap):
+            return None
+        referenced = set()
+        for s in states:
+            for v in list(s.locals.values()) + list(s.ghost.values()):
+                if isinstance(v, VRef):
+                    referenced.add(v.oid)
+            for h in s.heap.values():
+                if isinstance(h, HObj):
+                    for v in h.fields.values():
+                        if isinstance(v, VRef):
+                            referenced.add(v.oid)
+        mx = max(s.next_oid for s in states)
+        for s in states:
+            s.next_oid = mx
+        states = list(states)
+        keep_extra = True
+        for s in states:
+            for k2 in extra:
+                s.heap.setdefault(k2, None)
+        base = states[0]
     if any(s.locals.keys() != base.locals.keys() or s.ghost.keys() != base.ghost.keys() for s in states[1:]):
         return None
 
     def m(vals):
+        if any(isinstance(v, VSeq) for v in vals) and any(isinstance(v, VRef) for v in vals):
+            # a fresh list literal on one path, an immutable sequence on the other: merge the payloads
+            vals = [s_.heap[v.oid] if isinstance(v, VRef) and isinstance(s_.heap.get(v.oid), VSeq) else v
+                    for v, s_ in zip(vals, states)]
         r = vals[-1]
         for d, v in zip(reversed(deltas[:-1]), reversed(vals[:-1])):
             if v is r:
@@ -171,6 +202,7 @@ def merge_states(states):
         out = State()
         out.pc = list(pcs[0][:k]) + [z3.Or(deltas)]
         out.old, out.consts, out.next_oid = base.old, base.consts, base.next_oid
+        out._nn = set.intersection(*[s._nn for s in states])
         out.locals = {name: m([s.locals[name] for s in states]) for name in base.locals}
         out.ghost = {name: m([s.ghost[name] for s in states]) for name in base.ghost}
         for oid, h in base.heap.items():
@@ -179,6 +211,9 @@ def merge_states(states):
                 if any(x.fields.keys() != h.fields.keys() for x in hs):
                     return None
                 out.heap[oid] = HObj(h.cls, {f: m([x.fields[f] for x in hs]) for f in h.fields}, h.typ)
+            elif any(x is None for x in hs):
+                cand = [x for x in hs if x is not None]
+                out.heap[oid] = cand[0]      # path-local list payload (reachable only through merged-by-value locals)
             else:
                 out.heap[oid] = m(hs)
     except MergeError:
